@@ -83,9 +83,15 @@ func (e *env) ghostVal(g *ghostDecl) Val {
 	t := e.ghostType(g)
 	var ss []string
 	for i, srt := range e.u.ghostSorts(t) {
-		ss = append(ss, e.u.declare(fmt.Sprintf("%s.%d@0", key, i), srt))
+		gen := e.st.gen
+		if e.st.cutMode && !e.u.mayModify(key) {
+			gen = ""
+		}
+		ss = append(ss, e.u.declare(fmt.Sprintf("%s.%d@0%s", key, i, gen), srt))
 	}
-	return Val{T: t, S: ss}
+	v := Val{T: t, S: ss}
+	e.st.ghost[key] = v
+	return v
 }
 
 func (s *state) havocGhost(key string, t types.Type) {
